@@ -211,8 +211,9 @@ def build_all(rng, tier, run=None):
     nd, nt, na = (110, 900, 150) if tier == "quick" else (2500, 20000, 3000)
     # (a)
     deriv = []
-    for _ in range(nd):
-        c = c01.make_case(rng, steps=rng.choice([1, 1, 1, 2]), max_cells=6)
+    for k in range(nd + nd // 3):
+        # the last quarter are single-cell systems: the exported ODE right-hand side (make_dxdtf) exists for those only
+        c = c01.make_case(rng, steps=rng.choice([1, 1, 1, 2]), max_cells=(6 if k < nd else 1))
         n, ns = sysgen.ncells(c["desc"]), len(c["desc"]["species"])
         c["chs"] = rand_chs(rng, n, ns)
         if rng.random() < 0.3:
